@@ -216,6 +216,7 @@ def _prune_cache(keep):
 # --------------------------------------------------------------------- model
 _MIRROR = bool(os.environ.get('OFVERIF_MIRROR'))
 _NEGATE = bool(os.environ.get('OFVERIF_NEGATE'))
+_COMMUTE = os.environ.get('OFVERIF_COMMUTE') or ''
 _NEG_PRED = {'eq': 'ne', 'ne': 'eq', 'ult': 'uge', 'uge': 'ult', 'ugt': 'ule', 'ule': 'ugt', 'slt': 'sge', 'sge': 'slt',
              'sgt': 'sle', 'sle': 'sgt'}
 _SWAP_PRED = {'eq': 'eq', 'ne': 'ne', 'ult': 'ugt', 'ugt': 'ult', 'ule': 'uge', 'uge': 'ule', 'slt': 'sgt', 'sgt': 'slt',
@@ -396,6 +397,14 @@ class Function(object):
                         i.ops.append(i.calleev)
                 else:
                     i.ops = [V(o, self) for o in idd.get('ops', [])]
+                if _COMMUTE and i.op in ('add', 'mul', 'and', 'or', 'xor', 'fadd', 'fmul') and len(i.ops) == 2 and \
+                        (_COMMUTE == '2' or (i.ops[0].k != 'c' and i.ops[1].k != 'c')):
+                    # checker self-test: a + b spelt b + a (mode 2: also with a constant operand, `1 + i` for `i + 1`)
+                    i.ops = [i.ops[1], i.ops[0]]
+                if i.op in ('add', 'mul', 'and', 'or', 'xor', 'fadd', 'fmul') and len(i.ops) == 2 and \
+                        i.ops[0].k in ('c', 'cf') and i.ops[1].k not in ('c', 'cf'):
+                    # canonical form: `1 + i`, `31 & x` are `i + 1`, `x & 31` (clang -O0 keeps the source order)
+                    i.ops = [i.ops[1], i.ops[0]]
                 if _MIRROR and i.op == 'icmp' and len(i.ops) == 2 and i.ops[1].k not in ('c', 'null'):
                     # checker self-test (tools/metamorphic.py): every comparison between two non-constant operands spelt the
                     # other way round (a < b  ->  b > a) means the same program; no verdict may change
